@@ -8,6 +8,7 @@ import (
 	"go/constant"
 	"go/token"
 	"go/types"
+	"regexp"
 	"sort"
 	"strings"
 
@@ -1459,4 +1460,312 @@ func checkSetLanguageAlwaysSets(w *core.World, r *core.Report, rule string) {
 	}
 	r.Check(hit == nil && n > 0, rule, "state.(*State).SetLanguage: success means the language was stored", pos, fmt.Sprintf("every success return passes one of %d store(s) to State.Language", n),
 		"SetLanguage can report success without storing a language: a switch is acknowledged and dropped (a two-letter code that is a prefix of the current three-letter code, say), and every later lookup and the saved session stay in the old language: "+w.PathString(path))
+}
+
+// checkListedKeysPassDecodeKey (C11 R14): "data written under one session id is never listed for a
+// different session id". In a listing the rows come from a range or prefix query (Postgres) or a
+// directory scan (filesystem) that can deliver foreign rows - a session id with a pattern
+// character, a sibling session whose id extends this one. The one place that refuses them is
+// DbBase.DecodeKey, which checks the session prefix (C11 R10). Every key a back end's listing hands
+// out - the first entry given to Dumper.WithFirst and every non-nil key returned by its iterator
+// function - is the result of DecodeKey.
+func checkListedKeysPassDecodeKey(w *core.World, r *core.Report, rule string) {
+	n := 0
+	for _, pkg := range []string{"db/fs", "db/postgres"} {
+		for _, fn := range w.FuncsIn(pkg) {
+			sig := fn.Signature
+			isIter := sig.Recv() != nil && sig.Params().Len() == 1 && sig.Results().Len() == 2 &&
+				core.ByteLike(sig.Results().At(0).Type()) && core.ByteLike(sig.Results().At(1).Type()) &&
+				strings.HasSuffix(sig.Params().At(0).Type().String(), "context.Context")
+			var keys []ssa.Value
+			var poss []token.Pos
+			for _, c := range core.Calls(fn) {
+				if strings.HasSuffix(core.CallName(c), "Dumper).WithFirst") {
+					if a := core.CallArgs(c); len(a) >= 2 {
+						keys = append(keys, a[1])
+						poss = append(poss, c.Pos())
+					}
+				}
+			}
+			if isIter {
+				for _, in := range allInstrs(fn) {
+					if ret, ok := in.(*ssa.Return); ok && len(ret.Results) == 2 {
+						if v := core.ReturnValue(ret, 0); v != nil && !core.IsNilConst(v) {
+							keys = append(keys, v)
+							poss = append(poss, ret.Pos())
+						}
+					}
+				}
+			}
+			for i, k := range keys {
+				n++
+				r.Touch(core.QName(fn))
+				ok, what := keyPassedDecode(k, 2)
+				r.Check(ok, rule, fmt.Sprintf("%s listing (%s): key handed out #%d passed DecodeKey", pkg, fn.Name(), i+1), poss[i], "result of DbBase.DecodeKey",
+					"a listing hands out a key that did not pass DecodeKey's session check: rows of another session that the range/prefix query or the directory scan delivers (a session id with a pattern character, a sibling id) are listed with their values: the key derives from "+what)
+			}
+		}
+	}
+	r.Floor(rule, "keys handed out by listings", n, 4)
+}
+
+// isSessionCheckingDecode: a call of DbBase.DecodeKey, or of a back end's own DecodeKey in which
+// every success return lies behind a call of DbBase.DecodeKey (the filesystem back end wraps it to
+// undo its base64 encoding).
+func isSessionCheckingDecode(c *ssa.Call) bool {
+	if strings.HasSuffix(core.CallName(c), "DbBase).DecodeKey") {
+		return true
+	}
+	g := core.StaticCallee(c)
+	if g == nil || g.Name() != "DecodeKey" || len(g.Blocks) == 0 {
+		return false
+	}
+	cut := core.NewCut()
+	n := 0
+	for _, cc := range core.Calls(g) {
+		if strings.HasSuffix(core.CallName(cc), "DbBase).DecodeKey") {
+			cut.AddInstr(cc.(ssa.Instruction))
+			n++
+		}
+	}
+	if n == 0 {
+		return false
+	}
+	hit, _ := core.Reach(core.Entry(g), isSuccessReturnPred(g), cut)
+	return hit == nil
+}
+
+// keyPassedDecode: every source of v is nil or result 0 of a session-checking DecodeKey, looking
+// through results of static helpers (two levels).
+func keyPassedDecode(v ssa.Value, depth int) (bool, string) {
+	for _, src := range core.Sources(v) {
+		if cst, isC := src.(*ssa.Const); isC && cst.IsNil() {
+			continue
+		}
+		c, idx, isX := core.ExtractOf(src)
+		if !isX {
+			return false, valueDesc(src)
+		}
+		if idx == 0 && isSessionCheckingDecode(c) {
+			continue
+		}
+		g := core.StaticCallee(c)
+		if g == nil || len(g.Blocks) == 0 || depth <= 0 || g.Name() == "DecodeKey" {
+			return false, fmt.Sprintf("result %d of %s", idx, core.CallName(c))
+		}
+		for _, in := range allInstrs(g) {
+			ret, ok := in.(*ssa.Return)
+			if !ok || idx >= len(ret.Results) {
+				continue
+			}
+			rv := core.ReturnValue(ret, idx)
+			if rv == nil || core.IsNilConst(rv) {
+				continue
+			}
+			if ok2, what := keyPassedDecode(rv, depth-1); !ok2 {
+				return false, what + " (through " + core.QName(g) + ")"
+			}
+		}
+	}
+	return true, ""
+}
+
+// checkCommentTokenClass (C16 R12): a '#' starts a comment, and a comment is not assembled. The
+// lexer's constant rule table (read from the initialiser, rules tried in table order) is evaluated
+// on a fixed set of comment spellings - bare '#', '#' directly followed by a word, by a digit, by a
+// blank: for every one the first rule that matches at the '#' is one and the same token class and
+// takes the rest of the line. If another class (a symbol class that admits '#', say) can take the
+// text after a '#', a trailing comment written without a blank becomes an operand of the
+// instruction before it.
+func checkCommentTokenClass(w *core.World, r *core.Report, rule string) {
+	var initFn *ssa.Function
+	if sp := w.SSA["asm"]; sp != nil {
+		initFn = sp.Func("init")
+	}
+	if initFn == nil {
+		r.Undecided(rule, "assembler lexer rules", token.NoPos, "package initialiser of asm not found")
+		return
+	}
+	rules := lexerRuleTable(initFn)
+	if len(rules) == 0 {
+		r.Undecided(rule, "assembler lexer rules", initFn.Pos(), "no constant lexer rule table found in the initialiser")
+		return
+	}
+	type comp struct {
+		name string
+		re   *regexp.Regexp
+	}
+	var cs []comp
+	for _, rl := range rules {
+		re, err := regexp.Compile("^(?:" + rl.pat + ")")
+		if err != nil {
+			r.Undecided(rule, "assembler lexer rule "+rl.name, initFn.Pos(), "pattern does not compile: "+err.Error())
+			return
+		}
+		cs = append(cs, comp{rl.name, re})
+	}
+	probes := []string{"#", "#x", "#wait here", "# a comment", "#9", "#_", "#HALT"}
+	class := ""
+	bad := ""
+	for _, p := range probes {
+		first, full := "", false
+		for _, c := range cs {
+			if m := c.re.FindString(p); m != "" {
+				first, full = c.name, m == p
+				break
+			}
+		}
+		switch {
+		case first == "":
+			bad = fmt.Sprintf("no token class matches %q", p)
+		case !full:
+			bad = fmt.Sprintf("%q is not taken to the end of the line by class %s", p, first)
+		case class == "":
+			class = first
+		case class != first:
+			bad = fmt.Sprintf("%q is read as %s, other comments as %s", p, first, class)
+		}
+	}
+	r.Touch("asm.init")
+	r.Check(bad == "", rule, "assembler lexer: one comment token class", initFn.Pos(), fmt.Sprintf("all %d comment spellings are one %s token to the end of the line", len(probes), class),
+		"a '#' does not always start a comment: the text after it can be read as an operand of the instruction before it, so the bytecode contains arguments the author wrote as a comment: "+bad)
+}
+
+// checkParsedArgsNotRewritten (C16 R13): the operands of a line are captured by the grammar into the
+// fields of asm.Arg (by the parser library, through reflection) and read by the line emitters and
+// the batch menu processor, each in its own layout: for UP/NEXT/PREVIOUS lines the selector is in
+// Arg.Sym and the label in Arg.Selector. A rewrite of the captured fields between parsing and
+// emission (a "normalisation" that swaps them when one is the wildcard) is right for one layout and
+// wrong for the other. No function of package asm stores to a field of asm.Arg.
+func checkParsedArgsNotRewritten(w *core.World, r *core.Report, rule string) {
+	bad := ""
+	var badPos token.Pos
+	n := 0
+	for _, fn := range w.FuncsIn("asm") {
+		n++
+		for _, in := range allInstrs(fn) {
+			if st, ok := in.(*ssa.Store); ok {
+				if tn, f, ok := core.FieldOfAddr(st.Addr); ok && tn == "asm.Arg" {
+					bad = fmt.Sprintf("%s stores Arg.%s at %s", core.QName(fn), f, w.Pos(st.Pos()))
+					badPos = st.Pos()
+				}
+			}
+		}
+	}
+	r.Check(bad == "" && n > 0, rule, "assembler: captured operands are not rewritten before emission", badPos, fmt.Sprintf("%d functions of package asm, none stores a field of asm.Arg", n),
+		"the operands the grammar captured are changed before the line is emitted: what is a legacy reordering for one instruction layout swaps selector and label in another (UP * back becomes MOUT * back ... INCMP _ back): "+bad)
+}
+
+// checkAsmWriterErrorsChecked (C16 R14): the assembler's writers refuse what cannot be encoded (a
+// symbol longer than 255 bytes). A refusal that is dropped leaves the line half-written: the opcode
+// without its operand. For every call, in package asm, of a function of package asm whose last
+// result is an error (writers, line emitters, the batcher's steps), the error value is used: tested
+// for nil, returned, or handed on. A call whose error result is never read is a violation.
+func checkAsmWriterErrorsChecked(w *core.World, r *core.Report, rule string) {
+	n := 0
+	perFn := map[string]int{}
+	for _, fn := range w.FuncsIn("asm") {
+		for _, c := range core.Calls(fn) {
+			call, ok := c.(*ssa.Call)
+			g := core.StaticCallee(c)
+			if !ok || g == nil || core.PkgOf(g) != "asm" {
+				continue
+			}
+			res := g.Signature.Results()
+			if res.Len() == 0 || res.At(res.Len()-1).Type().String() != "error" {
+				continue
+			}
+			n++
+			used := false
+			if res.Len() == 1 {
+				used = call.Referrers() != nil && len(*call.Referrers()) > 0
+			} else if refs := call.Referrers(); refs != nil {
+				for _, u := range *refs {
+					if ex, ok := u.(*ssa.Extract); ok && ex.Index == res.Len()-1 {
+						if er := ex.Referrers(); er != nil && len(*er) > 0 {
+							used = true
+						}
+					}
+					if _, ok := u.(*ssa.Return); ok {
+						used = true // return f(...)
+					}
+				}
+			}
+			if used {
+				continue
+			}
+			perFn[core.QName(fn)+"/"+g.Name()]++
+			key := fmt.Sprintf("%s: error of %s", core.QName(fn), g.Name())
+			if k := perFn[core.QName(fn)+"/"+g.Name()]; k > 1 {
+				key = fmt.Sprintf("%s #%d", key, k)
+			}
+			r.Touch(core.QName(fn))
+			r.Bad(rule, key, c.Pos(), "the error of an assembler step is dropped: when the writer refuses an operand (a symbol longer than 255 bytes) the line is flushed without it - the bytecode has the opcode but not the argument the author wrote, and Parse reports success")
+		}
+	}
+	r.OK(rule, "assembler: errors of writers and emitters are used", token.NoPos, fmt.Sprintf("%d calls of error-returning functions of package asm examined", n))
+	r.Floor(rule, "calls of error-returning assembler functions", n, 15)
+}
+
+// checkMenuItemsEmptiedAfterExpansion (C16 R15): batch menu lines are collected in the menu
+// processor and expanded when the block ends. A source can hold several blocks; each must expand
+// to its own lines only. In the function that expands (calls MenuProcessor.ToLines), every path
+// from the expansion to a return empties the collection: a store of nil, an empty or fresh value to
+// MenuProcessor.items or to the processor itself - or ToLines does so on every path to its return.
+func checkMenuItemsEmptiedAfterExpansion(w *core.World, r *core.Report, rule string) {
+	tl := w.Func("asm", "(*MenuProcessor).ToLines")
+	if tl == nil {
+		r.Undecided(rule, "asm.(*MenuProcessor).ToLines", token.NoPos, "anchor not found")
+		return
+	}
+	empties := func(in ssa.Instruction) bool {
+		st, ok := in.(*ssa.Store)
+		if !ok {
+			return false
+		}
+		if tn, f, ok := core.FieldOfAddr(st.Addr); ok {
+			if tn == "asm.MenuProcessor" && f == "items" {
+				if core.IsNilConst(st.Val) {
+					return true
+				}
+				if sl, ok := core.Strip(st.Val).(*ssa.Slice); ok && sl.High != nil {
+					if k, ok := core.ConstInt(sl.High); ok && k == 0 {
+						return true
+					}
+				}
+				if _, ok := core.Strip(st.Val).(*ssa.MakeSlice); ok {
+					return true
+				}
+			}
+			if tn == "asm.Batcher" && f == "menuProcessor" {
+				return true // the processor is replaced as a whole
+			}
+		}
+		return false
+	}
+	cutOf := func(fn *ssa.Function) *core.Cut {
+		cut := core.NewCut()
+		for _, in := range allInstrs(fn) {
+			if empties(in) {
+				cut.AddInstr(in)
+			}
+		}
+		return cut
+	}
+	selfHit, _ := core.Reach(core.Entry(tl), core.IsReturn, cutOf(tl))
+	n := 0
+	for _, fn := range w.FuncsIn("asm") {
+		for _, c := range core.CallsTo(fn, "asm.(*MenuProcessor).ToLines") {
+			n++
+			r.Touch(core.QName(fn))
+			if selfHit == nil {
+				r.OK(rule, core.QName(fn)+": items emptied after expansion", c.Pos(), "ToLines empties the collection itself")
+				continue
+			}
+			hit, path := core.Reach(core.After(c.(ssa.Instruction)), core.IsReturn, cutOf(fn))
+			r.Check(hit == nil, rule, core.QName(fn)+": items emptied after expansion", c.Pos(), "every path from the expansion to a return empties the menu processor",
+				"the collected batch lines stay in the menu processor after they were expanded: a second menu block in the same source expands to the lines of the first block again plus its own - instructions the author did not write: "+w.PathString(path))
+		}
+	}
+	r.Floor(rule, "expansion sites (calls of ToLines in package asm)", n, 1)
 }
